@@ -218,7 +218,7 @@ pub fn run(r: &Report) {
             shared_pairs: vec![],
         },
         Tier::Thorough => AstParams {
-            max_lines: 7,
+            max_lines: 6,
             max_depth: 3,
             block_kinds: vec![Kind::Expired, Kind::Future, Kind::Targeted, Kind::SkipExpired],
             inline_kinds: vec![Kind::Expired, Kind::Targeted],
